@@ -33,7 +33,7 @@ CHECKS['C19'] = dict(
                dict(tu='c19_ops', group='ops3d', bounds=dict(S=3), shards=2),
                dict(tu='c19_ops', group='ops4d', bounds=dict(S=3), shards=2),
                dict(tu='c19_ops', group='views', bounds=dict(PX=3, BW=2, SH=4), shards=2),
-               dict(tu='c19_ops', group='stdfill', bounds=dict(PX=5, SH=4, SH16=2), shards=1)],
+               dict(tu='c19_ops', group='stdfill', bounds=dict(PX=5, SH=4, SH16=2), shards=1), dict(tu='c19_ops', group='narrow_keys', shards=1)],
         thorough=[dict(tu='c19_fill_a', group=g, bounds=dict(A=6, PX=6, BW=4, LB=128, SH=4), shards=8) for g in _c19_a] +
                  [dict(tu='c19_fill_b', group=g, bounds=dict(A=6, PX=6, BW=4, LB=128, SH=4), shards=8) for g in _c19_b] +
                  [dict(tu='c19_fill_a', group='g8', bounds=dict(A=4, PX=3, BW=3, LB=27, SH=6), shards=8),
@@ -42,8 +42,8 @@ CHECKS['C19'] = dict(
                   dict(tu='c19_ops', group='ops3d', bounds=dict(S=4), shards=8),
                   dict(tu='c19_ops', group='ops4d', bounds=dict(S=4), shards=8),
                   dict(tu='c19_ops', group='views', bounds=dict(PX=4, BW=3, SH=6), shards=8),
-                  dict(tu='c19_ops', group='stdfill', bounds=dict(PX=5, SH=6, SH16=3), shards=4)]),
-    witnesses_required=dict(all=['cumulative_nd_non_integral_bin', 'mask_excluded', 'limit_excluded', 'bin_collision', 'accumulate_added', 'replace_cleared',
+                  dict(tu='c19_ops', group='stdfill', bounds=dict(PX=5, SH=6, SH16=3), shards=4), dict(tu='c19_ops', group='narrow_keys', shards=1)]),
+    witnesses_required=dict(all=['key_type_narrower_than_channel', 'cumulative_nd_non_integral_bin', 'mask_excluded', 'limit_excluded', 'bin_collision', 'accumulate_added', 'replace_cleared',
                                  'dense_zero_bins', 'negative_key', 'bin_width_gt1', 'default_args_path', 'cumulative_1d',
                                  'cumulative_nd', 'sub_axes', 'sub_axes_merged_bins', 'sub_range_dropped', 'sub_range_kept',
                                  'std_vector', 'std_array', 'std_map', 'view:planar', 'view:transposed', 'view:subsampled',
